@@ -490,7 +490,7 @@ def run(ctx):
     ctx.assume("on_add followed by on_up for a host that is being added while a STATUS_CHANGE UP arrives is not counted as a repeated on_up; a host left with is_up None is not judged")
     ctx.assume("with max_attempts=2 a down host may legitimately end without a reconnector and stay down; only 'never two' is demanded there")
     n = ctx.scale(3000, 60000)
-    budget = 38 if ctx.quick else 300
+    budget = 20 if ctx.quick else 150        # CPU seconds of this worker (vlib caps wall-clock at 4x)
     base = ctx.seed * 1000003 + (ctx.worker or 0) * 100003
     for i in range(n):
         if ctx.time_left(budget) < 0:
